@@ -51,8 +51,8 @@ impl C15 {
             let mut rng = Rng::for_case(seed, "c15", i as u64);
             let (prog, tag) = if i % 3 == 2 { (MatchGen { rng: &mut rng, next_var: 0 }.program(), "match-shadow") } else { (scope_program(&mut rng), "scopes") };
             let k = cases.len();
-            cases.push(SurfCase { prog: prog.clone(), naming: Naming::Distinct, twin_of: None, infinite: false, tag });
-            cases.push(SurfCase { prog, naming: Naming::Clash, twin_of: Some(k), infinite: false, tag });
+            cases.push(SurfCase { prog: prog.clone(), naming: Naming::Distinct, twin_of: None, infinite: false, ordered: false, tag });
+            cases.push(SurfCase { prog, naming: Naming::Clash, twin_of: Some(k), infinite: false, ordered: false, tag });
         }
                 (cases, vec![])
     }
